@@ -148,6 +148,21 @@ CLAIMED = {
         "Trusted: as C10/C01; clock replaced by a constant; on LMDB ephemeral kinds are never stored by add_event.",
         "DESIGN.md §6 C17",
     ),
+    "C04": (
+        "Lean 4 round-trip theorems for the hand-written frame serialiser (string escaping, tag arrays, EOSE and EVENT frames, for all code-point strings) + differential correspondence with util.event_as_json / the EOSE branch + storage/live/HTTP round-trip oracle with really signed events",
+        "Proof: NostrRelay/Props/C04.lean proves that for every string (any code points) the JSON string reader returns "
+        "exactly the encoded string and the untouched rest; that every tag structure of strings is read back verbatim; and "
+        "that for every subscription id, content and tags the EOSE and EVENT frames parse back field for field "
+        "(C04_parse_event, under FieldsOk: hex fields without quotes, numbers as digits). The model serialiser is compared "
+        "code point by code point with the real one on random events drawn from every escape class; every emitted frame is "
+        "also parsed with Python's json. Served = accepted is checked with really signed events through add_event, "
+        "get_event, query, live push and HTTP /e/<id> on both backends, re-verifying id and signature. Two defects found "
+        "here were repaired (frames with raw sub ids / str()-formatted tag items; non-canonical hex pubkey/sig).",
+        "Trusted: rapidjson / json / msgpack / SQLite JSON codecs (exercised, not modelled); non-string tag items are "
+        "outside the Lean frame model (oracle only); OK/NOTICE/AUTH frames come from rapidjson's encoder and are "
+        "shape-checked in C13/C19.",
+        "DESIGN.md §6 C04",
+    ),
 }
 
 NOT_YET = "not reached yet in this round (model/tie not built); see DESIGN.md §10 staging — no weaker technique is substituted"
